@@ -197,6 +197,19 @@ let sdump (s : state) : string =
   Buffer.add_string b (Printf.sprintf " R %d" (i_of_n s.gl.lastrec));
   Buffer.contents b
 
+(* consumer tier: transactions driven by KVTxn.Commit follow the caller contract: UnLock as soon as Lock returned,
+   commit ts only when not stale (the commit ts is taken from the TS line printed after the real Commit returned) *)
+let auto : (int, unit) Hashtbl.t = Hashtbl.create 16
+let rec settle (s : state) : state =
+  let s = quiesce s in
+  let cand = List.filter (fun ii -> Hashtbl.mem auto ii && s.pc (nat_of_int ii) = TDone) (List.init !ntx (fun x -> x)) in
+  match cand with
+  | [] -> s
+  | ii :: _ ->
+      let i = nat_of_int ii in
+      let c = if (s.lat.locks i).lstale then 0 else (try Hashtbl.find commits ii with Not_found -> 0) in
+      (match exec sf (ns ()) s (LUnlock (i, n_i c)) with Some s' -> settle s' | None -> s)
+
 let script_apply (s : state) (a : string) : state * string =
   let arg () = int_of_string (String.sub a 1 (String.length a - 1)) in
   match a.[0] with
@@ -204,12 +217,17 @@ let script_apply (s : state) (a : string) : state * string =
       let ii = arg () in let i = nat_of_int ii in
       let cur = ref (ex s (LStart (i, List.map n_i (Hashtbl.find tx_keys ii), n_i (Hashtbl.find tx_start ii)))) in
       while !cur.pc i = TAcq do cur := ex !cur (LAcq i) done;
-      let s' = quiesce !cur in
-      (s', if s'.pc i = TDone then "ret" else "blk")
+      if Hashtbl.mem auto ii then begin
+        let s' = settle !cur in
+        (s', if s'.pc i = TWait then "blk" else if (s'.lat.locks i).lstale then "stale" else "ok")
+      end else begin
+        let s' = settle !cur in
+        (s', if s'.pc i = TDone then "ret" else "blk")
+      end
   | 'U' ->
       let ii = arg () in let i = nat_of_int ii in
       let c = if (s.lat.locks i).lstale then 0 else (try Hashtbl.find commits ii with Not_found -> 0) in
-      (quiesce (ex s (LUnlock (i, n_i c))), "-")
+      (settle (ex s (LUnlock (i, n_i c))), "-")
   | 'X' -> (quiesce (ex s LClose), "-")
   | 'M' ->
       let todo = List.filter (fun ii -> s.pc (nat_of_int ii) = TDone) (List.init !ntx (fun x -> x)) in
@@ -249,7 +267,7 @@ let () =
     match split_tab line with
     | "CASE" :: id :: spec :: _ ->
         case_id := id; case_spec := spec;
-        Hashtbl.reset sf_tab; Hashtbl.reset commits; ntx := 0; stack := [ (init_state, 0) ]; ops := [];
+        Hashtbl.reset sf_tab; Hashtbl.reset commits; Hashtbl.reset auto; ntx := 0; stack := [ (init_state, 0) ]; ops := [];
         rec_ts := []; rec_max := 0; no_macro := false; nslots := 1;
         List.iter (fun f -> match String.split_on_char '=' f with
           | ["rec"; v] -> rec_ts := List.filter_map (fun x -> if x = "" then None else Some (int_of_string x)) (String.split_on_char ',' v)
@@ -274,6 +292,7 @@ let () =
              let ms = List.map (fun k -> i_of_n (sf k)) lk.lkeys in
              if ms <> parse slots then mismatch "genlock-slots" line (ints ms)
          | None -> mismatch "start-disabled" line "")
+    | "AUTO" :: i :: _ -> Hashtbl.replace auto (int_of_string i) ()
     | "TS" :: i :: st :: cm :: keys :: _ ->
         let ii = int_of_string i in
         let parse v = if v = "-" then [] else List.map int_of_string (String.split_on_char ',' v) in
